@@ -177,6 +177,21 @@ def r4_r5b_on_command(ctx, F):
         adds = cl.calls_to('Add::add')
         if not (len(nows) == 1 and len(adds) == 1):
             okc = False
+    from taint import origins
+    for c in ins:
+        org = origins(b, c.args[2]) if len(c.args) > 2 else set()
+        good = bool(org)
+        for o in org:
+            if isinstance(o, (str, tuple)) or not o.is_('Add::add'):
+                good = False
+                continue
+            o0 = origins(b, o.args[0])
+            if not o0 or not all(not isinstance(x, (str, tuple)) and x.is_('Instant::now') for x in o0):
+                good = False
+        if good:
+            n += 1
+        else:
+            okc = False
     ctx.check(okc and n >= 1, 'C17-R5', 'deadline-is-now-plus-duration', b,
               good='the stored deadline is Instant::now() + duration on every write',
               bad='on_command: a SetTimer write does not store Instant::now() + duration')
@@ -213,27 +228,32 @@ def r6_codec(ctx, F):
     ctx.touched(dec)
     ctx.touched(enc)
     # decode: arrays handed to Ipv4Addr::from and u16::from_be_bytes
+    def byte_index(b, o):
+        """index i when operand o is (a temporary holding) bytes[i]"""
+        if o.get('k') not in ('copy', 'move'):
+            return None
+        if o['place']['p']:
+            return idx_const(b, o['place'])
+        l = o['place']['l']
+        ds = [d for d in b.defs.get(l, []) if d[1] != 'call']
+        if len(ds) == 1 and ds[0][2]['rv']['k'] == 'use' and ds[0][2]['rv']['op']['k'] in ('copy', 'move'):
+            return idx_const(b, ds[0][2]['rv']['op']['place'])
+        return None
+
     def array_sources(b, call):
+        """byte indexes handed to a constructor: one array argument, or one scalar argument per byte"""
+        if len(call.args) > 1:
+            return [byte_index(b, o) for o in call.args]
         v = b.val(call.args[0])
         out = []
         if v.kind == 'agg' and v.key[0] == 'array':
             for (i, si, st) in b.assigns(lambda st: st['rv']['k'] == 'agg' and st['rv']['agg'] == 'array'):
-                if b.val({'k': 'move', 'place': st['lhs']}) == v or True:
-                    ops = st['rv']['ops']
-                    if len(ops) == len(v.key[3]):
-                        cur = []
-                        for o in ops:
-                            # each operand is a temp assigned from bytes[idx]
-                            l = o['place']['l']
-                            ds = [d for d in b.defs.get(l, []) if d[1] != 'call']
-                            if len(ds) == 1 and ds[0][2]['rv']['k'] == 'use' and ds[0][2]['rv']['op']['k'] in ('copy', 'move'):
-                                cur.append(idx_const(b, ds[0][2]['rv']['op']['place']))
-                            else:
-                                cur.append(None)
-                        if b.val({'k': 'move', 'place': st['lhs']}) == v:
-                            out = cur
+                ops = st['rv']['ops']
+                if len(ops) == len(v.key[3]) and b.val({'k': 'move', 'place': st['lhs']}) == v:
+                    out = [byte_index(b, o) for o in ops]
         return out
-    ipc = [c for c in dec.calls if c.is_('From::from') and c.targs and c.targs[0].endswith('Ipv4Addr')]
+    ipc = [c for c in dec.calls if (c.is_('From::from') and c.targs and c.targs[0].endswith('Ipv4Addr')) or
+           c.is_('Ipv4Addr::new')]
     raw = lambda b_, ty, pre: [c for c in b_.calls if re.search(r'<impl %s>::%s_(be|le|ne)_bytes$' % (ty, pre), c.callee)]
     pc = raw(dec, 'u16', 'from')
     tb = raw(dec, 'u64', 'to')
@@ -268,6 +288,42 @@ def r6_codec(ctx, F):
                     e_ip[j] = pos
                 elif base.kind == 'call' and base.key == ptb[0].bb:
                     e_port[j] = pos
+    for _ in range(4):
+        if res_local is None:
+            break
+        ds = [d for d in enc.defs.get(res_local, []) if d[1] != 'call' and not d[2]['lhs']['p']]
+        if len(ds) == 1 and ds[0][2]['rv']['k'] == 'use' and ds[0][2]['rv']['op'].get('k') in ('copy', 'move') and \
+                not ds[0][2]['rv']['op']['place']['p']:
+            res_local = ds[0][2]['rv']['op']['place']['l']
+        else:
+            break
+    if res_local is not None:
+        # array literal form: [0, 0, octets[0], .., port_bytes[1]]
+        lits = [d for d in enc.defs.get(res_local, []) if d[1] != 'call' and not d[2]['lhs']['p'] and
+                d[2]['rv']['k'] == 'agg' and d[2]['rv'].get('agg') == 'array']
+        for d in lits:
+            for pos, o in enumerate(d[2]['rv']['ops']):
+                if o.get('k') == 'const':
+                    if o.get('val') == 0:
+                        zero.add(pos)
+                    continue
+                src = None
+                if o['place']['p']:
+                    src = o['place']
+                else:
+                    ds = [x for x in enc.defs.get(o['place']['l'], []) if x[1] != 'call']
+                    if len(ds) == 1 and ds[0][2]['rv']['k'] == 'use' and ds[0][2]['rv']['op']['k'] in ('copy', 'move'):
+                        src = ds[0][2]['rv']['op']['place']
+                    elif len(ds) == 1 and ds[0][2]['rv']['k'] == 'use' and ds[0][2]['rv']['op']['k'] == 'const' and \
+                            ds[0][2]['rv']['op'].get('val') == 0:
+                        zero.add(pos)
+                if src is not None:
+                    j = idx_const(enc, src)
+                    base = enc.local_val(src['l'])
+                    if base.kind == 'call' and base.key == oct_[0].bb:
+                        e_ip[j] = pos
+                    elif base.kind == 'call' and base.key == ptb[0].bb:
+                        e_port[j] = pos
     ok_ip = len(d_ip) == 4 and all(e_ip.get(j) == d_ip[j] for j in range(4))
     ok_port = len(d_port) == 2 and all(e_port.get(j) == d_port[j] for j in range(2))
     ctx.check(ok_ip, rule, 'ip-bytes-agree', enc,
